@@ -233,7 +233,7 @@ Theorem width_partial P S out : print_set P S = Some out ->
     Forall (fun x => In (snd x) (get_statements (separate_from_imports P) S) /\
                      width_rule (width_of P) (snd x) (fst x)) lines.
 Proof.
-  intros Hp. destruct (print_set_shape P S out Hp) as (col & ->).
+  intros Hp. destruct (print_set_shape P S out Hp) as (col & _ & ->).
   pose proof (get_statements_nonempty (separate_from_imports P) S) as Hne.
   exists (set_lines P col (get_statements (separate_from_imports P) S)). split.
   - apply set_lines_text. exact Hne.
